@@ -22,6 +22,7 @@
 import BumpProof.Coll.Vecs
 import BumpProof.Coll.Iter
 import BumpProof.Coll.Split
+import BumpProof.Coll.Rev
 
 namespace Driver.CollD
 open Coll
@@ -88,10 +89,11 @@ def normalise (k : Kind) (v : Vec) : Vec :=
   | _ => v
 
 def showVec (v : Vec) : String := s!"ids={csv (idsOf (v.slots.take v.len))} len={v.len} cap={v.cap}"
+def showRVec (v : Vec) : String := s!"ids={csv v.rabs} len={v.len} cap={v.cap}"
 
 /-- observable part of a result; logs are reported as deltas and then cleared -/
-def report (v : Vec) (exit : String) (used : Nat) : String :=
-  s!"{showVec v} drops={csv v.dropLog} esc={csv v.escaped} exit={exit} used={used}"
+def report (k : Kind) (v : Vec) (exit : String) (used : Nat) : String :=
+  s!"{if k == .rev then showRVec v else showVec v} drops={csv v.dropLog} esc={csv v.escaped} exit={exit} used={used}"
 
 def clearLogs (v : Vec) : Vec := { v with dropLog := [], escaped := [] }
 
@@ -148,6 +150,32 @@ def runSpecial (env : Env) (v : Vec) (name : String) (args : List Nat) (o : List
       | .ok (out, other') =>
         -- the owned slice that was passed in is gone after the call: what it dropped is part of the delta
         .ok ({ out.vec with dropLog := out.vec.dropLog ++ other'.dropLog }, showExit showUnit out.exit, o)
+    pure (r, false)
+  | _, _ => none
+
+/-- `MutBumpVecRev` -/
+def runRevOp (env : Env) (v : Vec) (name : String) (args : List Nat) (o : List Outcome) (rest : List String) :
+    Option (OpRes × Bool) :=
+  let keep (r : OpRes) : OpRes := r.map fun (a, b, _) => (a, b, o)
+  match name, args with
+  | "push", [id] => some (keep (pack showUnit (rpush env v id)), false)
+  | "pop", [] => some (keep (pack showOptId (rpop v)), false)
+  | "clear", [] => some (keep (pack showUnit (rclear env.bombs v)), false)
+  | "truncate", [n] => some (keep (pack showUnit (rtruncate env.bombs v n)), false)
+  | "insert", [i, id] => some (keep (pack showUnit (rinsert env v i id)), false)
+  | "remove", [i] => some (keep (pack showId (rremove v i)), false)
+  | "swap_remove", [i] => some (keep (pack showId (rswapRemove v i)), false)
+  | "extend_clone", [n] => some (pack showUnit (rextendFromSliceClone env v n o), false)
+  | "resize", [n, id] => some (pack showUnit (rresize env v n id o), false)
+  | "into_iter", [] => do
+    let script ← parseScript ((kvOf rest "s").getD "-")
+    pure (keep (pack showYields (rintoIter env.bombs v script)), true)
+  | "append", [] => do
+    let src ← (kvOf rest "src").bind parseCsv
+    let other : Vec := { slots := I src, len := src.length }
+    let r : OpRes := match rappend env v other with
+      | .error f => .error f
+      | .ok (out, other') => .ok ({ out.vec with dropLog := out.vec.dropLog ++ other'.dropLog }, showExit showUnit out.exit, o)
     pure (r, false)
   | _, _ => none
 
@@ -211,20 +239,21 @@ def handleOp (d : DState) (toks : List String) : DState × String :=
       | some args, some o, some bombs =>
         let capIn := ((kvOf rest "capin").bind (·.toNat?)).getD 0
         let env : Env := { bombs := bombs, kind := e.kind, capIn := capIn }
-        match runSpecial env (clearLogs e.vec) name args o rest with
+        match (if e.kind == .rev then (match runRevOp env (clearLogs e.vec) name args o rest with | some r => some r | none => some (.error (.assertion "op not available on MutBumpVecRev"), false))
+               else runSpecial env (clearLogs e.vec) name args o rest) with
         | some (.error f, _) => (d, showFault f)
         | some (.ok (v, exit, restO), true) =>
           (del d h, s!"gone drops={csv v.dropLog} esc={csv v.escaped} exit={exit} used={o.length - restO.length}")
         | some (.ok (v, exit, restO), false) =>
           let v := normalise e.kind v
-          (put d { e with vec := clearLogs v }, report v exit (o.length - restO.length))
+          (put d { e with vec := clearLogs v }, report e.kind v exit (o.length - restO.length))
         | none =>
         match runOp env (clearLogs e.vec) name args o with
         | none => (d, "bad-op unknown-op")
         | some (.error f) => (d, showFault f)
         | some (.ok (v, exit, restO)) =>
           let v := normalise e.kind v
-          (put d { e with vec := clearLogs v }, report v exit (o.length - restO.length))
+          (put d { e with vec := clearLogs v }, report e.kind v exit (o.length - restO.length))
       | _, _, _ => (d, "bad-op unparsable")
   | _ => (d, "bad-op")
 
@@ -237,21 +266,21 @@ def handle (d : DState) (toks : List String) : DState × String :=
         let addr := ((kvOf rest "addr").bind (·.toNat?)).getD 0
         let lay : Lay := { esize := ((kvOf rest "esize").bind (·.toNat?)).getD d.lay.esize,
                            align := ((kvOf rest "align").bind (·.toNat?)).getD d.lay.align }
-        (put { d with lay := lay } { name := h, kind := k, addr := addr,
-                                      vec := { slots := I ids ++ H (cap - ids.length), len := ids.length } }, "ok")
+        let slots := if k == .rev then H (cap - ids.length) ++ I ids else I ids ++ H (cap - ids.length)
+        (put { d with lay := lay } { name := h, kind := k, addr := addr, vec := { slots := slots, len := ids.length } }, "ok")
       else (d, "bad-op cap<len")
     | _, _, _ => (d, "bad-op unparsable")
   | "op" :: rest => handleOp d rest
   | "drop" :: h :: rest =>
     match find d h, parseCsv ((kvOf rest "bombs").getD "-") with
     | some e, some bombs =>
-      match dropVec bombs false (clearLogs e.vec) with
+      match (if e.kind == .rev then rdropVec bombs false (clearLogs e.vec) else dropVec bombs false (clearLogs e.vec)) with
       | .error f => (d, showFault f)
       | .ok r => (del d h, s!"drops={csv r.vec.dropLog} exit={showExit showUnit r.exit}")
     | _, _ => (d, "bad-op")
   | ["peek", h] =>
     match find d h with
-    | some e => (d, showVec e.vec)
+    | some e => (d, if e.kind == .rev then showRVec e.vec else showVec e.vec)
     | none => (d, "bad-op unknown-handle")
   | "reset" :: _ => ({}, "ok")
   | _ => (d, "bad-line")
